@@ -203,6 +203,9 @@ def _helper_guards(m, fi, pathparam):
                     return Const(ow)
                 if isinstance(e, ast.Constant):
                     return Const(e.value)
+                if _is_expanduser_of(e, pathparam):
+                    from ..vg import App
+                    return App('os.path.expanduser', (Obj('str', {}, 'P'),))
                 raise AnalysisError('C14.R1', fi.qualname, f'argument `{norm(e)}` of the guard helper not understood')
             return [val(a) for a in c.args], {k.arg: val(k.value) for k in c.keywords}
         res = {}
@@ -820,10 +823,16 @@ def r5(ctx):
             good &= ok
         # format None handled
         none_ok = False
-        for st in fn.body:
-            if isinstance(st, ast.If) and norm(st.test) == 'format is None':
-                txt = ' '.join(norm(b) for b in st.body)
-                none_ok = 'identify_format' in txt or '_no_format_error' in txt
+        # ... in the method itself or in the registry helper it hands `format` to (one level)
+        for sc in scopes:
+            for st in sc.body:
+                if isinstance(st, ast.If) and norm(st.test) == 'format is None':
+                    txt = ' '.join(norm(b) for b in st.body)
+                    if sc is not fn and not any(isinstance(a, ast.Name) and a.id == 'format'
+                                                for c in calls_in(fn) for a in list(c.args) + [k.value for k in c.keywords]
+                                                if (call_name(c) or '').split('.')[-1] == sc.name):
+                        continue
+                    none_ok = none_ok or 'identify_format' in txt or '_no_format_error' in txt
         if good and none_ok:
             ctx.ok(fi.qualname, 'KeyError -> IORegistryError; format None handled')
         else:
@@ -943,6 +952,20 @@ def r5b(ctx):
         fn = fi.node
         construct = f'RegionsRegistry.{name}: identify_format call'
         call = next((c for c in calls_in(fn) if (call_name(c) or '').endswith('identify_format')), None)
+        subst = {}
+        if call is None:
+            # the inference may sit in a helper of the registry class (one level): its identify_format call, with the
+            # helper's parameters replaced by what this method passes for them
+            for c in calls_in(fn):
+                for h in m.resolve_call(fi, c) or ():
+                    if h.cls != fi.cls or h.qualname == fi.qualname:
+                        continue
+                    inner = next((c2 for c2 in calls_in(h.node) if (call_name(c2) or '').endswith('identify_format')), None)
+                    if inner is not None and call is None:
+                        hp = [a.arg for a in h.node.args.args if a.arg not in ('cls', 'self')]
+                        subst = dict(zip(hp, c.args))
+                        subst.update({k.arg: k.value for k in c.keywords if k.arg})
+                        call = inner
         if call is None or len(role) != 3:
             ctx.need(call is not None, construct, 'no identify_format call')
             continue
@@ -951,6 +974,7 @@ def r5b(ctx):
             bound[p_] = a
         for kw in call.keywords:
             bound[kw.arg] = kw.value
+        bound = {k_: (subst.get(v_.id, v_) if isinstance(v_, ast.Name) else v_) for k_, v_ in bound.items()}
         # the class of the registry key: the name that precedes the constant method name in the key tuple, or in the call
         # of the helper that builds the key
         key_cls = None
@@ -1106,16 +1130,21 @@ def _path_forward(m, fi, expr, names, depth=0):
                                 if r is not None:
                                     carried.add(st.targets[0].id)
                     out = None
+                    plain = None
                     for st in ast.walk(g.node):
                         if isinstance(st, ast.Return) and st.value is not None:
                             r = _path_forward(m, g, st.value, carried, depth + 1)
                             if r is None:
-                                return ('unknown', f'{g.name} returns `{norm(st.value)[:60]}`')
+                                plain = plain or f'{g.name} returns `{norm(st.value)[:60]}`'
+                                continue
                             if r[0] != 'same':
                                 return (r[0], f'{g.name}: {r[1]}')
                             out = ('same', uses)
+                    if out and plain:
+                        return ('unknown', plain)       # the path on some returns, something else on others
                     if out:
                         return out
+                    return None                         # the helper consumes the path (a format name, a flag): nothing is handed on
         return ('unknown', norm(expr)[:80])
     return ('unknown', norm(expr)[:80])
 
